@@ -101,8 +101,7 @@ static inline void verif_rd_status(volatile void * p) {
 void verif_suspend_resume(void) {
   /* the suspended joiner is resumed by the finisher of T, on the finisher's worker, arbitrarily later */
   if (g_swaps < 2) g_swaps++;
-  g_worker_rank = nondet_int();
-  __CPROVER_assume(0 <= g_worker_rank && g_worker_rank < NW);
+  if (nondet_bool()) g_worker_rank = 0; else g_worker_rank = 1;
   verif_env_status();
 }
 
@@ -172,7 +171,6 @@ static void setup(int role) {
   g_role = role;
   ENVS[0].rank = 0; ENVS[1].rank = 1;
   g_envs = ENVS; g_envs_sz = NW;
-  g_worker_rank = nondet_int(); __CPROVER_assume(0 <= g_worker_rank && g_worker_rank < NW);
   T = malloc(sizeof(struct myth_thread));
   __CPROVER_assume(T != 0);
   T_STACK = malloc(64);
@@ -198,7 +196,7 @@ static void finisher_final_checks(void) {
 }
 
 /* the callbacks themselves, as they are entered after the jump: lock held, stack not yet released */
-void h_entry_point_1(void) {
+static void b_entry_point_1(void) {
   setup(ROLE_FINISHER);
   T->detached = nondet_bool(); g_detached_snap = T->detached;
   T->status = nondet_bool() ? MYTH_STATUS_READY : MYTH_STATUS_BLOCKED;
@@ -211,7 +209,7 @@ void h_entry_point_1(void) {
   __CPROVER_assert(env->this_thread == &NEXT, "finish: the worker now runs the next thread");
   VERIF_CANARY();
 }
-void h_entry_point_2(void) {
+static void b_entry_point_2(void) {
   setup(ROLE_FINISHER);
   T->detached = nondet_bool(); g_detached_snap = T->detached;
   T->status = nondet_bool() ? MYTH_STATUS_READY : MYTH_STATUS_BLOCKED;
@@ -228,9 +226,11 @@ void h_entry_point_2(void) {
 void verif_after_jump(void) {
   __CPROVER_assert(g_jumps == 1, "finish: exactly one jump away from the finished thread");
   finisher_final_checks();
+  if (g_queue_pops == 0) __CPROVER_assert(0, "CANARY reachable: finish with a blocked joiner (jump to the joiner)");
+  if (g_queue_pops == 1) __CPROVER_assert(0, "CANARY reachable: finish without joiner (jump to the next thread or the scheduler)");
   VERIF_CANARY();                                  /* the jump is reachable */
 }
-void h_cleanup(void) {
+static void b_cleanup(void) {
   setup(ROLE_FINISHER);
   T->detached = nondet_bool(); g_detached_snap = T->detached;
   T->status = MYTH_STATUS_READY;
@@ -254,7 +254,7 @@ static void reaper_setup(void) {
   cur_env()->this_thread = &ME; ME.env = cur_env();
 }
 
-void h_join_1(void) {
+static void b_join_1(void) {
   reaper_setup();
   __CPROVER_assume(T->status == MYTH_STATUS_FREE_READY2);
   _Bool want = nondet_bool();
@@ -265,7 +265,7 @@ void h_join_1(void) {
   VERIF_CANARY();
 }
 
-void h_join(void) {
+static void b_join(void) {
   reaper_setup();
   _Bool want = nondet_bool();
   void * res = (void *)&ME;
@@ -276,10 +276,12 @@ void h_join(void) {
   __CPROVER_assert(g_locks == 1 && g_unlocks == 1 && g_lock_held == 0, "join: lock taken and released once");
   __CPROVER_assert(g_stack_rel == 0, "join: never touches the stack");
   __CPROVER_assert(g_swaps <= 1, "join: blocks at most once");
+  if (g_swaps == 1) __CPROVER_assert(0, "CANARY reachable: join that blocked and was resumed (possibly on another worker)");
+  if (g_swaps == 0) __CPROVER_assert(0, "CANARY reachable: join of a thread found finished under the lock");
   VERIF_CANARY();
 }
 
-void h_tryjoin(void) {
+static void b_tryjoin(void) {
   reaper_setup();
   _Bool want = nondet_bool();
   void * res = (void *)&ME;
@@ -293,7 +295,7 @@ void h_tryjoin(void) {
   VERIF_CANARY();
 }
 
-void h_detach(void) {
+static void b_detach(void) {
   reaper_setup();
   int r = myth_detach_body(T);
   __CPROVER_assert(r == 0, "detach: returns 0");
@@ -303,5 +305,19 @@ void h_detach(void) {
                    "detach of a running thread: the flag is set between lock and unlock, the thread was unfinished under the lock");
   __CPROVER_assert(g_lock_held == 0 && g_locks == g_unlocks, "detach: lock released on every path");
   __CPROVER_assert(g_stack_rel == 0 && g_swaps == 0, "detach: never touches the stack, never blocks");
+  if (g_handed_over) __CPROVER_assert(0, "CANARY reachable: detach of a running thread");
+  if (g_desc_rel && g_locks == 0) __CPROVER_assert(0, "CANARY reachable: detach of a finished thread, unlocked fast path");
+  if (g_desc_rel && g_locks == 1) __CPROVER_assert(0, "CANARY reachable: detach of a finished thread, locked path");
   VERIF_CANARY();
 }
+
+/* every harness runs its body once per possible current worker (two constant cases instead of a symbolic index into
+   the array of 2.5 KB worker structs, which made the solver 50x slower) */
+#define ON_EACH_WORKER(body) do { if (nondet_bool()) { g_worker_rank = 0; body(); } else { g_worker_rank = 1; body(); } } while (0)
+void h_entry_point_1(void) { ON_EACH_WORKER(b_entry_point_1); }
+void h_entry_point_2(void) { ON_EACH_WORKER(b_entry_point_2); }
+void h_cleanup(void)       { ON_EACH_WORKER(b_cleanup); }
+void h_join_1(void)        { ON_EACH_WORKER(b_join_1); }
+void h_join(void)          { ON_EACH_WORKER(b_join); }
+void h_tryjoin(void)       { ON_EACH_WORKER(b_tryjoin); }
+void h_detach(void)        { ON_EACH_WORKER(b_detach); }
